@@ -463,4 +463,305 @@ theorem TInv.foldl (ops : List TOp) : ∀ {s : TTL}, TInv s → TInv (ops.foldl 
 
 theorem TInv.run (ops : List TOp) : TInv (TTL.run ops) := TInv.foldl ops TInv.init
 
+/-! ## groupcache/lru list -/
+
+theorem find_some_mem {k id : Nat} : ∀ {o : List (Nat × Nat)}, find k o = some id → (k, id) ∈ o := by
+  intro o
+  induction o with
+  | nil => intro h; simp [find] at h
+  | cons e o ih =>
+    obtain ⟨k', id'⟩ := e
+    intro h
+    simp only [find] at h
+    split at h
+    · rename_i ek; cases h; subst ek; exact List.mem_cons_self
+    · exact List.mem_cons_of_mem _ (ih h)
+
+theorem find_none_not_mem {k : Nat} : ∀ {o : List (Nat × Nat)}, find k o = none → ∀ id, (k, id) ∉ o := by
+  intro o
+  induction o with
+  | nil => intro _ id h; simp at h
+  | cons e o ih =>
+    obtain ⟨k', id'⟩ := e
+    intro h id hm
+    simp only [find] at h
+    split at h
+    · cases h
+    · rename_i hne
+      rcases List.mem_cons.mp hm with e | e
+      · cases e; exact hne rfl
+      · exact ih h id e
+
+/-- keys of the list are pairwise distinct (`lru.Cache.cache` is a map). -/
+def KeysNodup (o : List (Nat × Nat)) : Prop := o.Pairwise (fun a b => a.1 ≠ b.1)
+
+theorem KeysNodup.unique {o : List (Nat × Nat)} (h : KeysNodup o) {k id id' : Nat}
+    (h1 : (k, id) ∈ o) (h2 : (k, id') ∈ o) : id = id' := by
+  induction o with
+  | nil => simp at h1
+  | cons e o ih =>
+    have hp := List.pairwise_cons.mp h
+    rcases List.mem_cons.mp h1 with e1 | e1 <;> rcases List.mem_cons.mp h2 with e2 | e2
+    · rw [← e1] at e2; cases e2; rfl
+    · subst e1; exact absurd rfl (hp.1 _ e2)
+    · subst e2; exact absurd rfl (hp.1 _ e1).symm
+    · exact ih hp.2 e1 e2
+
+theorem find_of_mem {o : List (Nat × Nat)} (h : KeysNodup o) {k id : Nat} (hm : (k, id) ∈ o) :
+    find k o = some id := by
+  cases hf : find k o with
+  | none => exact absurd hm (find_none_not_mem hf id)
+  | some id' => rw [h.unique hm (find_some_mem hf)]
+
+theorem mem_eraseKey {k : Nat} {o : List (Nat × Nat)} {e : Nat × Nat} :
+    e ∈ eraseKey k o ↔ e ∈ o ∧ e.1 ≠ k := by
+  simp [eraseKey, List.mem_filter]
+
+theorem KeysNodup.eraseKey {o : List (Nat × Nat)} (h : KeysNodup o) (k : Nat) : KeysNodup (eraseKey k o) :=
+  List.Pairwise.filter _ h
+
+theorem eraseKey_length_le (k : Nat) (o : List (Nat × Nat)) : (eraseKey k o).length ≤ o.length :=
+  List.length_filter_le _ _
+
+theorem eraseKey_length_lt {k id : Nat} {o : List (Nat × Nat)} (h : (k, id) ∈ o) :
+    (eraseKey k o).length < o.length := by
+  unfold eraseKey
+  rw [List.length_filter_lt_length_iff_exists]
+  exact ⟨(k, id), h, by simp⟩
+
+/-- `MoveToFront` keeps the set of entries, the distinctness of keys and the length. -/
+theorem moveToFront_mem {o : List (Nat × Nat)} (hn : KeysNodup o) {k id : Nat} (hm : (k, id) ∈ o)
+    (e : Nat × Nat) : e ∈ (k, id) :: eraseKey k o ↔ e ∈ o := by
+  simp only [List.mem_cons, mem_eraseKey]
+  constructor
+  · rintro (h | h)
+    · subst h; exact hm
+    · exact h.1
+  · intro h
+    by_cases ek : e.1 = k
+    · left
+      obtain ⟨k', id'⟩ := e
+      simp only at ek; subst ek
+      rw [hn.unique h hm]
+    · exact Or.inr ⟨h, ek⟩
+
+theorem moveToFront_nodup {o : List (Nat × Nat)} (hn : KeysNodup o) (k id : Nat) :
+    KeysNodup ((k, id) :: eraseKey k o) := by
+  refine List.pairwise_cons.mpr ⟨?_, hn.eraseKey k⟩
+  intro e he
+  exact fun h => (mem_eraseKey.mp he).2 h.symm
+
+theorem moveToFront_length {o : List (Nat × Nat)} {k id : Nat} (hm : (k, id) ∈ o) :
+    ((k, id) :: eraseKey k o).length ≤ o.length := by
+  have := eraseKey_length_lt hm
+  simp only [List.length_cons]; omega
+
+/-- With distinct keys, dropping the last entry is erasing its key. -/
+theorem eraseKey_last {ys : List (Nat × Nat)} {a : Nat × Nat} (h : KeysNodup (ys ++ [a])) :
+    eraseKey a.1 (ys ++ [a]) = ys := by
+  have hp := List.pairwise_append.mp h
+  unfold eraseKey
+  rw [List.filter_append]
+  have h1 : List.filter (fun e => e.1 != a.1) ys = ys := by
+    rw [List.filter_eq_self]
+    intro e he
+    have := hp.2.2 e he a (by simp)
+    simpa using this
+  have h2 : List.filter (fun e => e.1 != a.1) [a] = [] := by simp
+  rw [h1, h2, List.append_nil]
+
+/-! ## LRUCache invariant -/
+
+/-- The part of the invariant that does not mention the capacity. -/
+structure LInv0 (o : List (Nat × Nat)) (c : Core) : Prop where
+  core : CInv c
+  nodup : KeysNodup o
+  oOk : ∀ k id, (k, id) ∈ o → ∃ r, c.rcs[id]? = some r ∧ r.key = k ∧ r.finDone = false
+  live : ∀ id r, c.rcs[id]? = some r → r.finDone = false → (r.key, id) ∈ o
+
+structure LInv (s : LRU) : Prop where
+  inv0 : LInv0 s.order s.core
+  capOk : s.cap ≠ 0 → s.order.length ≤ s.cap
+
+theorem LInv.init (cap : Nat) : LInv { cap := cap } :=
+  ⟨⟨CInv.init, List.Pairwise.nil, by intro k id h; simp at h, by intro id r h; simp at h⟩, by simp⟩
+
+theorem LInv0.reorder {o : List (Nat × Nat)} {c : Core} (inv : LInv0 o c) {o' : List (Nat × Nat)}
+    {c' : Core} (hc : CInv c') (hv : ViewEq c.rcs c'.rcs) (hn : KeysNodup o')
+    (hm : ∀ e, e ∈ o' ↔ e ∈ o) : LInv0 o' c' := by
+  refine ⟨hc, hn, ?_, ?_⟩
+  · intro k id hmem
+    obtain ⟨r, hr, hk, hf⟩ := inv.oOk k id ((hm _).mp hmem)
+    obtain ⟨r', hr', k', _, f'⟩ := (hv id).1 r hr
+    exact ⟨r', hr', k'.trans hk, f'.trans hf⟩
+  · intro id r' hr' hf'
+    obtain ⟨r, hr, k', _, f'⟩ := (hv id).2 r' hr'
+    have := inv.live id r hr (f'.symm.trans hf')
+    exact (hm _).mpr (by simpa [k'] using this)
+
+/-- `removeElement` of a present entry followed by `OnEvicted` (= `finalize`). -/
+theorem LInv0.evict {o : List (Nat × Nat)} {c : Core} (inv : LInv0 o c) {k id : Nat}
+    (hmem : (k, id) ∈ o) : LInv0 (eraseKey k o) (c.fin id) := by
+  obtain ⟨r0, hr0, hk0, hf0⟩ := inv.oOk k id hmem
+  refine ⟨inv.core.fin id, inv.nodup.eraseKey k, ?_, ?_⟩
+  · intro k' id' hm'
+    obtain ⟨hin, hne⟩ := mem_eraseKey.mp hm'
+    simp only at hne
+    obtain ⟨r, hr, hk, hf⟩ := inv.oOk k' id' hin
+    have hid : id ≠ id' := by
+      intro e; subst e
+      rw [hr0] at hr; cases hr
+      exact hne (hk.symm.trans hk0)
+    exact ⟨r, by simp [fin_lookup, hr, hid], hk, hf⟩
+  · intro j r' hr' hf'
+    simp only [fin_lookup] at hr'
+    cases hj : c.rcs[j]? with
+    | none => simp [hj] at hr'
+    | some r =>
+      simp only [hj, Option.map_some, Option.some.injEq] at hr'
+      by_cases e : id = j
+      · simp only [e, if_true] at hr'; subst hr'; simp at hf'
+      · simp only [e, if_false] at hr'; subst hr'
+        have hm' := inv.live j r hj hf'
+        refine mem_eraseKey.mpr ⟨hm', ?_⟩
+        intro ek
+        simp only at ek
+        rw [ek] at hm'
+        exact e (inv.nodup.unique hmem hm')
+
+/-- `PushFront` of a fresh refCounter under a key that is not in the list. -/
+theorem LInv0.push {o : List (Nat × Nat)} {c : Core} (inv : LInv0 o c) {k : Nat} (v : Nat)
+    (hk : ∀ id, (k, id) ∉ o) :
+    LInv0 ((k, c.rcs.length) :: o) ((c.newRc k v).newTok c.rcs.length) := by
+  have hnew : (c.newRc k v).rcs[c.rcs.length]? = some (RC.initialize { key := k, val := v }) := by
+    simp [Core.newRc]
+  have hc : CInv ((c.newRc k v).newTok c.rcs.length) := (inv.core.newRc k v).newTok hnew (by simp)
+  have hv := viewEq_newTok (c.newRc k v) c.rcs.length
+  refine ⟨hc, ?_, ?_, ?_⟩
+  · refine List.pairwise_cons.mpr ⟨?_, inv.nodup⟩
+    intro e he ek
+    obtain ⟨k', id'⟩ := e
+    simp only at ek; subst ek
+    exact hk id' he
+  · intro k' id' hm'
+    rcases List.mem_cons.mp hm' with e | e
+    · cases e
+      obtain ⟨r', hr', k1, _, f1⟩ := (hv c.rcs.length).1 _ hnew
+      exact ⟨r', hr', by simp [k1], by simp [f1]⟩
+    · obtain ⟨r, hr, hk', hf⟩ := inv.oOk k' id' e
+      have hlt := (List.getElem_of_getElem? hr).1
+      have : (c.newRc k v).rcs[id']? = some r := by
+        simp [Core.newRc, List.getElem?_append_left hlt, hr]
+      obtain ⟨r', hr', k1, _, f1⟩ := (hv id').1 _ this
+      exact ⟨r', hr', k1.trans hk', f1.trans hf⟩
+  · intro j r' hr' hf'
+    obtain ⟨r, hr, k1, _, f1⟩ := (hv j).2 r' hr'
+    simp only [Core.newRc] at hr
+    rw [List.getElem?_append] at hr
+    split at hr
+    · have hm' := inv.live j r hr (f1.symm.trans hf')
+      rw [k1]; exact List.mem_cons_of_mem _ hm'
+    · rename_i hge
+      have hj : j = c.rcs.length := by
+        cases hj' : j - c.rcs.length with
+        | zero => omega
+        | succ n => simp [hj'] at hr
+      subst hj
+      simp at hr
+      subst hr
+      simp [k1]
+
+theorem innerGet_of_find_some {o : List (Nat × Nat)} {k id : Nat} (h : find k o = some id) :
+    innerGet o k = ((k, id) :: eraseKey k o, some id) := by simp [innerGet, h]
+
+theorem innerGet_of_find_none {o : List (Nat × Nat)} {k : Nat} (h : find k o = none) :
+    innerGet o k = (o, none) := by simp [innerGet, h]
+
+theorem LInv.hit {s : LRU} (inv : LInv s) {k id : Nat} (h : find k s.order = some id) :
+    LInv { s with order := (k, id) :: eraseKey k s.order, core := s.core.newTok id } := by
+  have hmem := find_some_mem h
+  obtain ⟨r, hr, _, hf⟩ := inv.inv0.oOk k id hmem
+  refine ⟨inv.inv0.reorder (inv.inv0.core.newTok hr hf) (viewEq_newTok _ _)
+    (moveToFront_nodup inv.inv0.nodup k id) (moveToFront_mem inv.inv0.nodup hmem), ?_⟩
+  intro hc
+  exact Nat.le_trans (moveToFront_length hmem) (inv.capOk hc)
+
+theorem LInv.add {s : LRU} (inv : LInv s) (k v : Nat) : LInv (s.add k v).1 := by
+  unfold LRU.add
+  cases hf : find k s.order with
+  | some id =>
+    simp only [innerGet_of_find_some hf]
+    exact inv.hit hf
+  | none =>
+    simp only [innerGet_of_find_none hf]
+    have hk := find_none_not_mem hf
+    have hpush := inv.inv0.push v hk
+    simp only [innerAdd, hf]
+    split
+    · rename_i hcap
+      -- RemoveOldest
+      have hne : ((k, s.core.rcs.length) :: s.order) ≠ [] := by simp
+      obtain ⟨a, ha⟩ : ∃ a, ((k, s.core.rcs.length) :: s.order).getLast? = some a := by
+        cases hl : ((k, s.core.rcs.length) :: s.order).getLast? with
+        | none => exact absurd (List.getLast?_eq_none_iff.mp hl) hne
+        | some a => exact ⟨a, rfl⟩
+      obtain ⟨ys, hys⟩ := List.getLast?_eq_some_iff.mp ha
+      simp only [ha, Option.map_some, Core.finOpt]
+      rw [hys, List.dropLast_concat]
+      have hmem : (a.1, a.2) ∈ (k, s.core.rcs.length) :: s.order := by rw [hys]; simp
+      have hev := hpush.evict hmem
+      rw [hys, eraseKey_last (by rw [← hys]; exact hpush.nodup)] at hev
+      refine ⟨hev, ?_⟩
+      intro hc
+      have hlen := congrArg List.length hys
+      simp only [List.length_cons, List.length_append, List.length_singleton] at hlen
+      have := inv.capOk hc
+      simp only; omega
+    · rename_i hcap
+      refine ⟨hpush, ?_⟩
+      intro hc
+      simp only [List.length_cons] at hcap ⊢
+      simp only [List.length_cons]
+      omega
+
+theorem LInv.get {s : LRU} (inv : LInv s) (k : Nat) : LInv (s.get k).1 := by
+  unfold LRU.get
+  cases hf : find k s.order with
+  | some id =>
+    simp only [innerGet_of_find_some hf]
+    exact inv.hit hf
+  | none =>
+    simp only [innerGet_of_find_none hf]
+    exact inv
+
+theorem LInv.remove {s : LRU} (inv : LInv s) (k : Nat) : LInv (s.remove k) := by
+  unfold LRU.remove
+  split
+  · rename_i id hf
+    refine ⟨inv.inv0.evict (find_some_mem hf), ?_⟩
+    intro hc
+    exact Nat.le_trans (eraseKey_length_le k s.order) (inv.capOk hc)
+  · exact inv
+
+theorem LInv.done {s : LRU} (inv : LInv s) (tok : Nat) : LInv (s.done tok).1 := by
+  unfold LRU.done
+  split
+  · exact inv
+  · exact ⟨inv.inv0.reorder (inv.inv0.core.release tok) (viewEq_release _ _) inv.inv0.nodup
+      (fun _ => Iff.rfl), inv.capOk⟩
+
+theorem LInv.step {s : LRU} (inv : LInv s) (op : LOp) : LInv (s.step op).1 := by
+  cases op with
+  | add k v => exact inv.add k v
+  | get k => exact inv.get k
+  | remove k => exact inv.remove k
+  | done tok => exact inv.done tok
+
+theorem LInv.foldl (ops : List LOp) : ∀ {s : LRU}, LInv s → LInv (ops.foldl (fun s o => (s.step o).1) s) := by
+  induction ops with
+  | nil => intro s h; exact h
+  | cons o ops ih => intro s h; exact ih (h.step o)
+
+theorem LInv.run (cap : Nat) (ops : List LOp) : LInv (LRU.run cap ops) := LInv.foldl ops (LInv.init cap)
+
 end SV.Refcount
